@@ -96,7 +96,8 @@ def run(repo, rep, tier):
     L.borrow(repo, rep, "R01.9", "C05", c05.brackets,
              ("bracket-present", "restore-condition", "marker"))
     L.borrow(repo, rep, "R01.9", "C04", lambda r, p: c04._binders(
-        r, p, handlers=False), ("shared-scope", "scope-leak", "empty-scope"))
+        r, p, handlers=False), ("shared-scope", "scope-leak", "empty-scope",
+                                 "first-iterable-outside"))
     # 'exactly the text the language prescribes' for content, replacement
     # and attribute values of every value class (str, bytes, numbers,
     # markup objects): all paths of the conversion routine the sinks call
@@ -892,6 +893,42 @@ def _cache_scope(repo, rep, func, res, steps):
               where=L.where(func, search.lineno), detail=src(search.iter))
     # children see the switch: push precedes the children visit, pop follows
     L.g_pair_stack(rep, "R01.6", func, res, "self._switches")
+    # 'the matching case': a case matches when its value EQUALS the switch
+    # value (or is the default marker: identity).  The comparison nodes are
+    # turned into Python by one table; every comparison class of nodes.py
+    # has its row and the row is the operator the class is named after
+    OPS = {"Is": "is", "IsNot": "is not", "Equals": "==",
+           "NotEquals": "!=", "In": "in", "NotIn": "not in"}
+    opbase = repo.cls("chameleon.nodes.Op")
+    classes = sorted(c.name for c in repo.subclasses(opbase))
+    vb = repo.func("chameleon.compiler.ExpressionTransform.visit_BinOp")
+    tables = [n for n in ast.walk(vb.node) if isinstance(n, ast.Dict)
+              and n.keys and all(isinstance(k, (ast.Name, ast.Attribute))
+                                 for k in n.keys)]
+    if len(tables) != 1:
+        raise AnalysisError("visit_BinOp: operator table not found")
+    rows = {src(k).split(".")[-1]: (v.value if isinstance(v, ast.Constant)
+                                    else src(v))
+            for k, v in zip(tables[0].keys, tables[0].values)}
+    wrong = sorted("%s -> %r" % (k, v) for k, v in rows.items()
+                   if OPS.get(k) != v)
+    missing = sorted(c for c in classes if c not in rows)
+    rep.check(not wrong and not missing and len(rows) >= 3, "R01.6",
+              vb.qualname, "every comparison node is compiled to the "
+              "operator it is named after (Equals is '==': a case value "
+              "equal to the switch value matches, also when it is another "
+              "object)", construct="op-table", where=L.where(vb),
+              detail="wrong: %s; without a row: %s" % (wrong, missing))
+    # ... and tal:case compares with Equals (the default marker with Is)
+    cmp_ops = []
+    for w in A.walk(res.value):
+        if isinstance(w, A.NodeV) and w.kind == "BinOp":
+            cmp_ops.append(A.show(w.arg("op", ("left", "op", "right")),
+                                  limit=3))
+    rep.check("nodes.Equals" in cmp_ops, "R01.6", site, "tal:case compares "
+              "its value with the switch value for equality",
+              construct="case-equals", where=L.where(func),
+              detail=str(sorted(set(cmp_ops))))
 
 
 def _parsers(repo, rep):
